@@ -28,7 +28,7 @@ What is proved, for models of any size, about `Model/Lower.lean`
   under the auxiliary-range hypothesis), `C10_or_repaired_witness` (the former counterexample
   `x == 1 or y == 2`, now a theorem), the counterexamples `C10_or_nested_counterexample` (an `or`
   with a nested side is still a conjunction; float operands: `C10_float_or_counterexample`),
-  `C10_not_counterexample`, `C10_nested_ne_counterexample`, and `C10_aux_vars_partial`
+  `C10_not_counterexample`, `C10_nested_ne_checked`, and `C10_aux_vars_partial`
   (auxiliary variables of `+`/`-` trees are functionally determined, under the range hypothesis
   shown necessary by `C10_aux_clipped_counterexample`).
 
@@ -54,7 +54,7 @@ theorems below are about the same definitions at exact rationals `Rat`):
 
 "Meaning" of a lowered propagator is `PK.holds` (the documented meaning of the integer core,
 `Model/IntCore.lean`); that the propagators enforce exactly `PK.holds` is C05/C01's subject — the
-one place where they do not (`NotEquals` is a no-op) is what `C10_nested_ne_counterexample` shows.
+one place where they do not (`NotEquals` is a no-op) is what `C10_nested_ne_checked` shows.
 -/
 namespace Selen
 namespace C10
@@ -187,7 +187,7 @@ theorem C10_and_is_conjunction (m : LModel) (a b : Con) :
 
 /-- semantic consequence on `and`-trees of variable comparisons (all six operators, any nesting):
 lowering only appends propagators, and they all hold exactly when the tree evaluates to `true`
-(at the level of the documented meaning `PK.holds`; see `C10_nested_ne_counterexample` for what
+(at the level of the documented meaning `PK.holds`; see `C10_nested_ne_checked` for what
 the `NotEquals` propagator actually enforces). -/
 theorem C10_and_vv_sem (c : Con) (hc : vvTree c = true) (m : LModel) :
     m.materialize c = { m with props := m.props ++ vvProps c } ∧
@@ -586,13 +586,13 @@ theorem C10_not_counterexample :
     have := hp (.leVV 0 1) (by rw [hprops]; simp)
     simp [LP.toPK, PK.holds, IView.eval, h0, h1] at this
 
-/-- **a `!=` inside a combinator is not enforced** (findings `neq-noop`): `(x != 3).and(x == x)`
+/-- **a `!=` inside a combinator is enforced at the leaves** (former finding `neq-noop`, repaired
+by 1172f09 `fix: NotEquals fails when both sides are fixed to the same value`): `(x != 3).and(x == x)`
 over `x ∈ 0..5` is not linearised (it is not a top-level comparison); the `!=` leaf becomes the
-`NotEquals` propagator, whose *documented* meaning is `≠` (`PK.holds` is false at `x = 3`) but
-whose `prune` is the identity: on the fully assigned store `x = 3` every lowered propagator
-accepts (no failure, which is how the search recognises a solution), although the tree evaluates
-to `false`.  A top-level `x != 3` is lowered to the linear `≠` row, which does reject that store. -/
-theorem C10_nested_ne_counterexample :
+`NotEquals` propagator, which does no pruning but fails on the fully assigned store `x = 3`, so the
+search no longer takes that store for a solution — the same verdict as the linear `≠` row that a
+top-level `x != 3` is lowered to. -/
+theorem C10_nested_ne_checked :
     let doms : List Dom := [rangeDom 0 5]
     let c := Con.and (.bin (.var 0) .ne (.val 3)) (.bin (.var 0) .eq (.var 0))
     let m := (LModel.postCon { doms := doms } c).lower
@@ -601,24 +601,19 @@ theorem C10_nested_ne_counterexample :
     m.panicked = false ∧ m.doms = [rangeDom 0 5, [3]] ∧ m.props = [.neVV 0 1, .eqVV 0 0] ∧
     c.eval a = some false ∧
     (∀ i, i < m.doms.length → a i ∈ m.doms.getD i []) ∧
-    (∀ lp ∈ m.props, (PK.prune lp.toPK ctx).isSome = true) ∧
+    PK.prune (LP.neVV 0 1).toPK ctx = none ∧
     PK.holds a (LP.neVV 0 1).toPK = false ∧
     (∀ lp ∈ ((LModel.postCon { doms := doms } (.bin (.var 0) .ne (.val 3))).lower).props,
       (PK.prune lp.toPK ctx).isSome = false) := by
   intro doms c m a ctx
-  refine ⟨by decide, by decide, rfl, by decide, by decide, ?_, by decide, ?_⟩
-  · have hprops : m.props = [.neVV 0 1, .eqVV 0 0] := rfl
-    rw [hprops]
-    intro lp hlp
-    simp only [List.mem_cons, List.not_mem_nil, or_false] at hlp
-    rcases hlp with rfl | rfl <;> decide
-  · have hprops : ((LModel.postCon { doms := doms } (.bin (.var 0) .ne (.val 3))).lower).props =
-        [.linNe [1] [0] 3] := rfl
-    rw [hprops]
-    intro lp hlp
-    simp only [List.mem_cons, List.not_mem_nil, or_false] at hlp
-    subst hlp
-    decide
+  refine ⟨by decide, by decide, rfl, by decide, by decide, by decide, by decide, ?_⟩
+  have hprops : ((LModel.postCon { doms := doms } (.bin (.var 0) .ne (.val 3))).lower).props =
+      [.linNe [1] [0] 3] := rfl
+  rw [hprops]
+  intro lp hlp
+  simp only [List.mem_cons, List.not_mem_nil, or_false] at hlp
+  subst hlp
+  decide
 
 /-! ### auxiliary variables -/
 
